@@ -525,9 +525,10 @@ pub fn gen_c03(out: &mut Out, rng: &mut Rng, thorough: bool) {
         }
     }
     // sustained junk through each stream decoder (soak): many kilobytes in one case
-    let soaks = if thorough { 40 } else { 5 };
+    let soaks = if thorough { 20 } else { 5 };
     for i in 0..soaks {
-        let total = if thorough { 200_000 } else { 40_000 };
+        // (the model's buffer is a list: its cost grows with the square of the stream length)
+        let total = if thorough { 80_000 } else { 40_000 };
         let data = junk_stream(rng, total);
         let mut chunks = vec![];
         let mut at = 0;
